@@ -311,7 +311,10 @@ fn run(ctx: &Ctx, rep: &Report) {
             rpm::PackageBuilder::new("t", "1", "MIT", "noarch", "s")
                 .compression(rpm::CompressionType::None)
                 .with_file(&p, rpm::FileOptions::new("/f"))
-                .map(|b| b.build().map(|pkg| pkg.metadata.get_file_entries().map(|e| e.first().map(|f| f.modified_at.0))))
+                // the conversion error may come from with_file() or, for a builder that reads its
+                // sources late, from build()
+                .and_then(|b| b.build())
+                .map(|pkg| Ok::<_, rpm::Error>(pkg.metadata.get_file_entries().map(|e| e.first().map(|f| f.modified_at.0))))
         });
         let want = expected(*m);
         match r {
